@@ -66,13 +66,18 @@ def happy_len(req, fulls, mode, devseed, policy):
     return len(r["__model_input__"]["script"]), r["__model_input__"]["script"]
 
 
-def inject_case(rng, req, fulls, mode, devseed, policy, idx, entry, stream):
+def inject_case(rng, req, fulls, mode, devseed, policy, idx, entry, stream, prelude=None):
     pol = dict(policy)
     pol["faults"] = {str(idx): list(entry)}
     inp = {"mode": mode, "line": {"kind": "json", "request": req},
            "dev": {"seed": devseed, "state": {}, "policy": pol}}
     if fulls:
         inp["full_coinbases"] = fulls
+    if prelude is not None:
+        # the same manager (protocol + dongle objects) served another request before: whatever it left behind in
+        # those objects must not change the mapping of this request's outcomes
+        inp["prelude"] = {"request": prelude[0], "faults": {}}
+        inp["full_coinbases"] = dict(fulls or {}, **(prelude[1] or {}))
     return Case(OP, inp, stream=stream, command=req.get("command"), index=idx,
                 entry=entry[0] + (":%04x" % entry[1] if entry[0] == "w" else ""))
 
@@ -102,6 +107,19 @@ def gen(tier, rng):
                     out.append(inject_case(rng, req, fulls, mode, devseed, policy, i, ("w", sw), "status"))
                 for e in others:
                     out.append(inject_case(rng, req, fulls, mode, devseed, policy, i, e, "outcome"))
+            # …and after the manager served another command (block operations: after the other block operation)
+            if mode == "v5":
+                cmd = req.get("command")
+                other = {"advanceBlockchain": "updateAncestorBlock", "updateAncestorBlock": "advanceBlockchain"}.get(
+                    cmd) or rng.choice([c for c in reqgen.COMMANDS if c not in ("version", cmd)])
+                pre = reqgen.valid_request(rng, other)
+                named = [0x6A8F, 0x6B9A, 0x6B9C, 0x6B95, 0x6B88, 0x6B9E, 0x6A8D, 0x6A8A, 0x6A94, 0x6A87, 0x6B8C, 0x6B90,
+                         0x6BA0, 0x6B87, 0x69A0]
+                pidx = idxs if cmd in ("advanceBlockchain", "updateAncestorBlock") else idxs[:2] + idxs[-1:]
+                for i in sorted(set(pidx)):
+                    for sw in named + rng.sample(stats, 6):
+                        out.append(inject_case(rng, req, fulls, mode, devseed, policy, i, ("w", sw), "after-other",
+                                               prelude=pre))
     if tier == "thorough":
         # every status word at one exchange of every step kind.  All 65536 words for one step kind of sign and of
         # advance; for every other (command, step kind) the pages 0x6900-0x6DFF complete, every harvested table
